@@ -162,6 +162,24 @@ Definition add_checks (fs : list raw_func) (f : raw_func) : result unit :=
   do _ <- validate_consistent_axes (specs_of fs');
   if acyclicb (fgraph fs') then Ok tt else Err OtherError.  (* networkx.NetworkXUnfeasible *)
 
+(* validate_unique_outputs (C12 repair): no output name is produced by two functions *)
+Definition unique_outputs (fs : list raw_func) : result unit :=
+  if nodup_strb (all_outs fs) then Ok tt else Err ValueError.
+(* what building the cached property Pipeline.graph and Pipeline.topological_generations re-validates.  It is the
+   first thing run / map do, and the only pipeline-level validation that sees a change made through the API of a
+   MEMBER function (PipeFunc.update_* clears the pipeline's caches but does not call Pipeline._validate) *)
+Definition graph_checks (fs : list raw_func) : result unit :=
+  do _ <- unique_outputs fs;
+  do _ <- consistent_defaults fs;
+  if acyclicb (fgraph fs) then Ok tt else Err OtherError.
+(* Pipeline._validate (after every pipeline-level mutation) *)
+Definition pipeline_validate (fs : list raw_func) : result unit :=
+  do _ <- unique_outputs fs;
+  do _ <- consistent_defaults fs;
+  do _ <- mapspec_outputs_match fs;
+  do _ <- validate_consistent_axes (specs_of fs);
+  if acyclicb (fgraph fs) then Ok tt else Err OtherError.
+
 (* where the first exception is raised: in the constructor of the i-th PipeFunc (all PipeFuncs are created first)
    or in the i-th Pipeline.add *)
 Inductive stage := SFunc | SAdd.
@@ -343,9 +361,82 @@ Definition old_internal (q : mreq) (p : prev_info) : shape_dict :=
   construct_internal (pv_internal p) (prev_funcs q p).
 Definition old_shapes (q : mreq) (p : prev_info) : result shapes_t :=
   map_shapes (prev_req q p) (old_internal q p).
+(* ---------- the exact order of Pipeline.sorted_functions ----------
+   (needed only where two DIFFERENT pipelines are compared: mapspecs_as_strings of the current pipeline against the
+   list stored by the previous run; everywhere else the order inside a generation is irrelevant and `sorted_funcs`
+   is used).  Mirrors Pipeline.graph (node and edge insertion order: functions in listing order, each followed by
+   the new argument / _Bound / producer nodes of its parameters), the placeholder edges for nullary functions, and
+   networkx.topological_generations (a node joins the next generation when its last predecessor is processed). *)
+Inductive gnode := NF (i : nat) | NArg (a : str) | NBound (a : str) (i : nat) | NPh (i : nat).
+Definition gnode_eqb (x y : gnode) : bool :=
+  match x, y with
+  | NF i, NF j => i =? j
+  | NArg a, NArg b => str_eqb a b
+  | NBound a i, NBound b j => str_eqb a b && (i =? j)
+  | NPh i, NPh j => i =? j
+  | _, _ => false
+  end.
+Definition gstate := (list gnode * list (gnode * gnode))%type.
+Definition g_add_node (st : gstate) (n : gnode) : gstate :=
+  if existsb (gnode_eqb n) (fst st) then st else (fst st ++ [n], snd st).
+Definition g_add_edge (st : gstate) (u v : gnode) : gstate :=
+  let st := g_add_node (g_add_node st u) v in
+  if existsb (fun e => gnode_eqb (fst e) u && gnode_eqb (snd e) v) (snd st) then st else (fst st, snd st ++ [(u, v)]).
+Fixpoint index_where {A} (p : A -> bool) (l : list A) : option nat :=
+  match l with [] => None | x :: t => if p x then Some 0 else option_map S (index_where p t) end.
+Definition nx_graph (fs : list raw_func) : gstate :=
+  let with_funcs :=
+    fold_left (fun st (fi : nat * raw_func) =>
+                 let (i, f) := fi in
+                 fold_left (fun st arg =>
+                              if ahas (rbound f) arg then g_add_edge st (NBound arg i) (NF i)
+                              else match index_where (fun g => mem_str arg (routs g)) fs with
+                                   | Some j => g_add_edge st (NF j) (NF i)
+                                   | None => g_add_edge (g_add_node st (NArg arg)) (NArg arg) (NF i)
+                                   end)
+                           (rparams f) (g_add_node st (NF i)))
+              (combine (seq 0 (length fs)) fs) ([], []) in
+  let nullary := filter (fun fi : nat * raw_func => match rparams (snd fi) with [] => true | _ => false end)
+                        (combine (seq 0 (length fs)) fs) in
+  fold_left (fun st (kf : nat * (nat * raw_func)) => g_add_edge st (NPh (fst kf)) (NF (fst (snd kf))))
+            (combine (seq 0 (length nullary)) nullary) with_funcs.
+Definition g_succs (es : list (gnode * gnode)) (n : gnode) : list gnode :=
+  map snd (filter (fun e => gnode_eqb (fst e) n) es).
+Definition g_indeg (es : list (gnode * gnode)) (n : gnode) : nat :=
+  length (filter (fun e => gnode_eqb (snd e) n) es).
+(* one generation: process the nodes in order, the children in edge order *)
+Fixpoint nx_dec (deg : list (gnode * nat)) (c : gnode) : list (gnode * nat) * bool :=
+  match deg with
+  | [] => ([], false)
+  | (n, d) :: t =>
+      if gnode_eqb n c then ((n, pred d) :: t, Nat.eqb d 1)
+      else let (t', z) := nx_dec t c in ((n, d) :: t', z)
+  end.
+Definition nx_step (es : list (gnode * gnode)) (this : list gnode) (deg : list (gnode * nat))
+  : list gnode * list (gnode * nat) :=
+  fold_left (fun acc node =>
+               fold_left (fun acc child =>
+                            let (deg', zero) := nx_dec (snd acc) child in
+                            (if zero then fst acc ++ [child] else fst acc, deg'))
+                         (g_succs es node) acc)
+            this ([], deg).
+Fixpoint nx_gens (fuel : nat) (es : list (gnode * gnode)) (this : list gnode) (deg : list (gnode * nat))
+  : list (list gnode) :=
+  match fuel, this with
+  | _, [] => []
+  | O, _ => []
+  | S n, _ => let (next, deg') := nx_step es this deg in this :: nx_gens n es next deg'
+  end.
+Definition nx_sorted_funcs (fs : list raw_func) : list raw_func :=
+  let (ns, es) := nx_graph fs in
+  let gens := nx_gens (S (length ns)) es (filter (fun n => g_indeg es n =? 0) ns)
+                      (map (fun n => (n, g_indeg es n)) ns) in
+  flat_map (fun n => match n with NF i => match nth_error fs i with Some f => [f] | None => [] end | _ => [] end)
+           (concat gens).
+
 (* pipeline.mapspecs_as_strings: the MapSpecs of sorted_functions, printed (printing is injective on well-formed
    printable specs: C08_print_injective) *)
-Definition sorted_specs (fs : list raw_func) : list mapspec := specs_of (sorted_funcs fs).
+Definition sorted_specs (fs : list raw_func) : list mapspec := specs_of (nx_sorted_funcs fs).
 
 (* ---------- the meaning of the check labels (labels as produced by harness/translate_prepare.py) ---------- *)
 Definition L_exec := s "raise ValueError@prepare_run?if not parallel and executor".
@@ -377,6 +468,9 @@ Definition R_load := s "RunInfo.load@_compare_to_previous_run_info?try".
 
 Definition c_exec (q : mreq) : result unit :=
   if negb (q_parallel q) && q_executor q then Err ValueError else Ok tt.
+(* _validate_complete_inputs reads pipeline.topological_generations.root_args: the graph is (re)built first *)
+Definition c_inputs (q : mreq) : result unit :=
+  do _ <- graph_checks (q_funcs q); validate_complete_inputs q.
 Definition c_axes (q : mreq) : result unit := validate_consistent_axes (specs_of (q_funcs q)).
 Definition storage_names (q : mreq) : list str :=
   match q_storage q with StStr n => [n] | StDict d => map snd d end.
@@ -431,7 +525,7 @@ Definition c_map_shapes (q : mreq) : result unit :=
 
 Definition chk (l : str) (q : mreq) : result unit :=
   if str_eqb l L_exec then c_exec q
-  else if str_eqb l L_inputs then validate_complete_inputs q
+  else if str_eqb l L_inputs then c_inputs q
   else if str_eqb l L_axes then c_axes q
   else if str_eqb l L_st_names then c_st_names q
   else if str_eqb l L_st_str then c_st_str q
